@@ -44,6 +44,14 @@ def scaleFactor (p : EP α) (w : α) : α := ((1:Nat):α) - (((1:Nat):α) - p.su
 /-- one term of the volume sum: `dvol / max(min_dist_4th, sq_dist*sq_dist)` -/
 def dvInc (p : EP α) (dvol sqDist : α) : α := dvol / max p.minDist4 (sqDist * sqDist)
 
+/-- the loop of `radial_volume_desolvation` over the atoms outside the group's own residue, each given as
+    (van der Waals volume, squared distance to the group centre): accumulated (volume, count) -/
+def desolvLoop (p : EP α) (desolvCut2 buriedCut2 : α) (atoms : List (α × α)) : α × Nat :=
+  atoms.foldl (fun acc a =>
+    let v := if a.2 < desolvCut2 then acc.1 + dvInc p a.1 a.2 else acc.1
+    let n := if a.2 < buriedCut2 then acc.2 + 1 else acc.2
+    (v, n)) (((0:Nat):α), 0)
+
 /-- `energy_volume` from the accumulated volume, the charge and the buried weight -/
 def energyVolume (p : EP α) (q volume w : α) : α :=
   q * p.prefactor * max ((0:Nat):α) (volume - p.allowance) * scaleFactor p w
